@@ -388,23 +388,26 @@ def op_objective(E, m, S):
     r = _rxn(E, m, pool=("R1", "R2", "DM_B"))
     how = E.pick(S.tag("objective"), ["reaction", "id", "index", "dict", "Objective", "forward-only", "bad-id"])
     if how == "reaction":
-        _try(S, "objective=reaction", lambda: setattr(m, "objective", r), ref=IDENT, r=r.id)
+        _try(S, "objective=reaction", lambda: setattr(m, "objective", r), ref=lambda R, i=r.id: R.set_objective({i: 1}), r=r.id)
     elif how == "id":
-        _try(S, "objective=id", lambda: setattr(m, "objective", r.id), ref=IDENT, r=r.id)
+        _try(S, "objective=id", lambda: setattr(m, "objective", r.id), ref=lambda R, i=r.id: R.set_objective({i: 1}), r=r.id)
     elif how == "index":
-        _try(S, "objective=index", lambda: setattr(m, "objective", m.reactions.index(r)), ref=IDENT, r=r.id)
+        _try(S, "objective=index", lambda: setattr(m, "objective", m.reactions.index(r)),
+             ref=lambda R, i=r.id: R.set_objective({i: 1}), r=r.id)
     elif how == "dict":
         x = E.real(S.tag("c"), -5, 5)
         other = m.reactions[0]
-        _try(S, "objective=dict", lambda: setattr(m, "objective", {r: x, other: -1} if other is not r else {r: x}), ref=IDENT, r=r.id)
+        want = {r.id: x, other.id: -1} if other is not r else {r.id: x}
+        _try(S, "objective=dict", lambda: setattr(m, "objective", {r: x, other: -1} if other is not r else {r: x}),
+             ref=lambda R: R.set_objective(want), r=r.id)
     elif how == "Objective":
         _try(S, "objective=Objective", lambda: setattr(m, "objective", m.problem.Objective(
-            2.0 * r.flux_expression, direction="min")), r=r.id, ref=IDENT)
+            2.0 * r.flux_expression, direction="min")), r=r.id, ref=lambda R, i=r.id: R.set_objective({i: 2}, "min"))
     elif how == "forward-only":
         # an objective that is not c*(forward - reverse): only the forward variable
         S.asym_ok = getattr(S, "asym_ok", set()) | {r.id}
         _try(S, "objective=forward-only", lambda: setattr(m, "objective", m.problem.Objective(
-            1.0 * r.forward_variable, direction="max")), r=r.id, ref=IDENT)
+            1.0 * r.forward_variable, direction="max")), r=r.id, ref=lambda R: (R.objective_unknown(), R.set_objective({}, "max")))
     else:
         _try(S, "objective=bad-id", lambda: setattr(m, "objective", "nope"), ref=IDENT)
 
@@ -412,12 +415,14 @@ def op_objective(E, m, S):
 def op_objective_coefficient(E, m, S):
     r = _rxn(E, m, pool=("R1", "DM_B"))
     x = E.real(S.tag("c"), -5, 5)
-    _try(S, "objective_coefficient=", lambda: setattr(r, "objective_coefficient", x), ref=IDENT, r=r.id)
+    _try(S, "objective_coefficient=", lambda: setattr(r, "objective_coefficient", x),
+         ref=lambda R, i=r.id: R.set_objective_coefficient(i, x), r=r.id)
 
 
 def op_direction(E, m, S):
     d = E.pick(S.tag("direction"), ["min", "max", "maximize", "bogus"])
-    _try(S, "objective_direction=", lambda: setattr(m, "objective_direction", d), ref=IDENT, d=d)
+    _try(S, "objective_direction=", lambda: setattr(m, "objective_direction", d),
+         ref=lambda R: R.set_objective(R.objective or {}, d[:3]) if R.objective is not None else setattr(R, "direction", d[:3]), d=d)
 
 
 def op_add_metabolites(E, m, S):
